@@ -89,7 +89,9 @@ let cmd_struct (t : string list) =
       let (r, s') = run_phys G_dec.bsz (read_val g ty) (phys_init data) in
       (match r with Inl v -> out ("val " ^ string_of_val v) | Inr e -> out ("throw " ^ G_dec.err_name e));
       out ("rest " ^ G_dec.summarize (logical s')))
-  | "r" :: nm :: rest ->
+  | ("r" | "rr") as o :: nm :: rest ->
+    (* rr <first> <second>: the real driver reads both encodings into one object; the result is that of the second alone *)
+    let rest = (match o, rest with "rr", _ :: r -> r | _ -> rest) in
     (match struct_ty nm with None -> out "? bad struct command" | Some ty ->
       let data = match rest with h :: _ -> bytes_of_hex h | [] -> [] in
       let g = nat_of_int (List.length data + 2) in
